@@ -110,3 +110,11 @@ check(
     "Trusted: TLC, Python's tokenize for the token stream shipped with small sources. The highlighter over a corpus of real files is observation-level (row ids only). crashtest's folding of repeated frames and solution rendering are not modelled.",
     "DESIGN.md#C20",
 )
+check(
+    "C17",
+    ["RunHistory", "Styles", "RunHistoryTrace"],
+    "TLA+ models of what survives inside the process: (a) RunHistory - the per-command leniency override across runs of one application (SameAsFresh, NoResidue; the pinned variant must violate); (b) Styles - the heap of shared BorderStyle prototypes / TableStyle objects and the trace snippet cache (NoAliasing, RenderPure); TLC-enumerated run sequences and style histories replayed on the real objects and decided by RunHistoryTrace.tla / StylesTrace.tla against fresh applications / a fresh process",
+    "(a) every sequence of 2 (quick) / 3 (thorough) line kinds out of 14 (valid, surplus arguments, unknown option, help X, X --help, failing help requests, version, undefined command, empty line) is explored on the model and run on ONE real ConsoleApplication, each run compared by TLC with a freshly built application (status, stdout, stderr, handler calls); 150/3000 random sequences of 2-6 lines incl. lines outside the pool. (b) all orders of making / customising the predefined table styles (<= 4 operations) and repeated renders of tables, help pages, paragraphs, name/version and error traces at each verbosity and UTF-8 setting, each compared with a reference rendered in a truly fresh process.",
+    "Trusted: TLC, interning of outputs (equal ids <=> equal texts), the fresh-process reference server of c17_styles. Same process and terminal width for shared and fresh runs; every run gets a new StringArgs object (re-using one RawArgs object is outside the statement). BlockLayout re-rendered directly is not counted as a component.",
+    "DESIGN.md#C17",
+)
